@@ -5,23 +5,34 @@ SortSpec::compare is a total order, sorted permutations are unique, so the listi
 on the enumeration order; symlink root refusal; tables regenerated from src/walker.rs,
 src/sort_*.rs, src/file_path.rs).
 Correspondence: the real binary `imdl torrent create --input ROOT --output -` on generated trees,
-each built twice in different creation orders, vs the extracted `Walk.walk`; the `sortcmp` and
+each built twice in different creation orders, vs the extracted `Walk.walk` (once with the glob matches
+tabulated by the Python oracle, once with the concrete matcher of Model/Glob.v); the `sortcmp` and
 `globf` hooks at volume vs `Walk.sort_compare` / `Walk.pattern_filter`.
-Oracle: Python enumerate / filter / sort by the documented rules (this file, independent of the model)."""
+X13: globset itself (Glob::new + compile_matcher + is_match, default options) is modelled in Model/Glob.v
+and proved against a declarative semantics (Proofs/GlobProofs.v); `glob_library` ties the extracted
+parser + matcher to the real library through the `glob_filter` hook on >= 20 000 (pattern, path) pairs
+per quick run (grammar-built patterns, raw metacharacter text, malformed patterns, a fixed corpus) and
+`glob_e2e` runs every corpus pattern through `imdl torrent create --glob=..` on a tiny tree.
+Oracle: Python enumerate / filter / sort by the documented rules, and `doc_regex`, the meaning of a glob
+written from the globset documentation (this file, independent of the model)."""
 import functools, json, os, random, re, shlex, shutil, socket, tempfile
 import lib
 
 MANIFEST = dict(
     text="Machine-checked proof over a Gallina model of Walker::files / pattern_filter / SortSpec::compare: for every tree, "
-         "flag combination, glob list (any matcher) and sort specification the listing is the unique sorted arrangement of "
+         "flag combination, glob list and sort specification the listing is the unique sorted arrangement of "
          "exactly the files passing the documented per-path predicate, independent of enumeration order; symlink roots are "
-         "refused unless followed. Tied to the code by translator-generated tables and a correspondence run of the extracted "
-         "model against the real binary on generated trees and against the sort/glob hooks. Right level: the property is "
+         "refused unless followed. The glob matcher is concrete: a Gallina model of globset 0.4.14's parser and of the regex it "
+         "writes, proved sound and complete against a declarative semantics for all token lists and paths, with the precedence "
+         "rule (last matching glob decides) stated over that semantics. Tied to the code by translator-generated tables and a correspondence run of the extracted "
+         "model against the real binary on generated trees and against the sort/glob hooks (globset itself: >= 20 000 "
+         "(pattern, path) pairs per quick run through the glob_filter hook, every corpus pattern end to end). Right level: the property is "
          "combinatorial over trees x flags x globs x sort keys, which sampling cannot settle but induction over trees can.",
     ref="DESIGN.md section 5, C06",
     technique="Coq proof over a Gallina model + translator-generated tables + model/implementation correspondence run",
-    note="Assumed: globset matching (Section variable gmatch; a glob sub-language is validated against the glob_filter hook "
-         "first); the `ignore` crate's walker is represented by its effect (yield / walk_error). Not modelled: --ignore, "
+    note="globset matching is modelled (Model/Glob.v: patterns are valid UTF-8, paths any bytes; the regex engine is represented "
+         "by the meaning of the regex fragments globset writes per token) and validated against the glob_filter hook; "
+         "the `ignore` crate's walker is represented by its effect (yield / walk_error). Not modelled: --ignore, "
          "platform hidden attributes, non-UTF-8 names, symlink loops. Trusted: Coq kernel, tools/rs2v_walker.py, extraction "
          "(ExtrOcamlBasic), hooks + harness, Python oracle.")
 
@@ -429,6 +440,12 @@ def model_line(case):
     return "walk %d%d%d %s %s %s" % (hid, junk, follow, ",".join(globs) or "~", specs, enc_tree(case["tree"]))
 
 
+def model_line_globs(case):
+    hid, junk, follow = case["flags"]
+    specs = ",".join(("p" if k == "path" else "s") + ("-" if d else "+") for k, d in case["specs"]) or "~"
+    return "walkg %d%d%d %s %s %s" % (hid, junk, follow, lib.hexlist([glob_arg(g) for g in case["globs"]]), specs, enc_tree(case["tree"]))
+
+
 def model_canon(reply):
     if reply in ("OK REFUSED", "OK FAILED"):
         return "ERR"
@@ -554,6 +571,554 @@ def shrink(ctx, case, still_fails, budget=80):
     return case
 
 
+# ------------------------------------------------------------------ globset, concretely (X13)
+# Model/Glob.v is a concrete model of globset 0.4.14 (Glob::new + compile_matcher().is_match, default options) and of
+# Walker::globs. The tie: every generated (pattern, path) pair goes through the `glob_filter` hook with the single glob `g`
+# (and, for a share of them, `!g`), which reveals is_match exactly, and through the extracted `Glob.glob_filter`; the error
+# classification must agree (model None <-> hook error). A third, independent judge is `doc_regex`: a translation of the
+# generator's own pattern structure into a Python regular expression written from the globset documentation (never from the
+# model, never from glob.rs); it is applied where the documentation is unambiguous (see `doc_judges`).
+#
+# a structured pattern is a list of items
+#   ("lit", ch)  ("any",)  ("star",)  ("class", negated, [(lo, hi), ...])  ("pre",)  ("suf",)  ("mid",)  ("alt", [branch, ...])
+# ("pre" only first, "suf" only last, "mid" between two items; a branch is a non-empty list of items without "alt")
+
+G_LITS = list("abcxyz") + list("abx") + [".", ".", "/", "/", "-", "_", " ", "0", "9", "A", "~", "+", "é", "ÿ", "☃", "!", "^", ","] \
+    + ["*", "?", "[", "]", "{", "}", "\\"]
+G_META = set("*?[]{}\\")          # written escaped when meant literally ("," only inside a group, "!" only first in a class)
+G_PATH_ALPHA = ["a", "b", "x", "/", "/", ".", "[", "*", "\\", "{", "}", "é", "☃", "-", ",", "?", "]", "z", "0", " "]
+
+
+def g_item(r, depth=0):
+    k = r.random()
+    if k < 0.46:
+        return ("lit", r.choice(G_LITS))
+    if k < 0.58:
+        return ("any",)
+    if k < 0.74:
+        return ("star",)
+    if k < 0.92 or depth:
+        neg = r.random() < 0.3
+        rs = []
+        for _ in range(r.choice([1, 1, 2, 3])):
+            q = r.random()
+            if q < 0.45:
+                c = r.choice(list("abcxyz09A._-/ ") + ["]", "*", "?", "[", "é", "!", "^", "\\", "{", ","])
+                rs.append((c, c))
+            elif q < 0.9:
+                rs.append(r.choice([("a", "c"), ("a", "z"), ("0", "9"), ("A", "Z"), ("x", "z"), (" ", "/"), ("+", "-"), ("a", "a"), ("a", "é"), ("é", "ÿ")]))
+            else:
+                rs.append(("-", "-"))
+        return ("class", neg, rs)
+    return ("alt", [[g_item(r, 1) for _ in range(r.choice([1, 1, 2, 3]))] for _ in range(r.choice([1, 2, 2, 3]))])
+
+
+def g_pattern(r):
+    """a pattern inside the documented language: `**` only in its three legal positions, groups not nested, no empty branch"""
+    n = r.choice([1, 1, 2, 2, 3, 3, 4, 5, 6])
+    its = [g_item(r) for _ in range(n)]
+    if r.random() < 0.2:
+        its = [("pre",)] + its
+    if r.random() < 0.2:
+        its = its + [("suf",)]
+    if len(its) >= 2 and r.random() < 0.22:
+        i = r.randint(1, len(its) - 1)
+        if its[i - 1][0] not in ("pre", "mid") and its[i][0] not in ("suf", "mid"):
+            its = its[:i] + [("mid",)] + its[i:]
+    if r.random() < 0.12:                           # a group whose branches use the recursive forms
+        br = [[("pre",), ("lit", "s")], [("lit", "d"), ("suf",)], [("lit", "a"), ("mid",), ("lit", "b")], [("star",), ("lit", ".")]]
+        r.shuffle(br)
+        its = [t for t in its if t[0] not in ("pre", "suf")]
+        k = r.random()
+        g = ("alt", br[:r.randint(1, 3)])
+        its = [g] if k < 0.3 else [g] + its if k < 0.6 else its + [g] if k < 0.85 else its[:1] + [g] + its[1:]
+    return its
+
+
+def g_class_text(neg, rs, r):
+    """one spelling of the class: `]` must come first, a literal `-` last, `!`/`^` not first unless negating; None when this
+    set has no spelling"""
+    singles = [lo for lo, hi in rs if lo == hi]
+    elems = [c for c in singles if c not in ("]", "-")] + [lo + "-" + hi for lo, hi in rs if lo != hi]
+    head = "]" if "]" in singles else ""
+    if not neg and not head and elems and elems[0] in ("!", "^"):
+        j = next((i for i, e in enumerate(elems) if e not in ("!", "^")), None)
+        if j is None:
+            return None                                    # `[!]` / `[^]` cannot be written without negating
+        elems[0], elems[j] = elems[j], elems[0]
+    if not head and not elems and "-" not in singles:
+        return None
+    return "[" + ("!" if neg and r.random() < 0.6 else "^" if neg else "") + head + "".join(elems) + ("-" if "-" in singles else "") + "]"
+
+
+def g_text(its, r, in_alt=False):
+    """the pattern text of a structured pattern; None when this structure has no spelling"""
+    out = []
+    for t in its:
+        k = t[0]
+        if k == "lit":
+            c = t[1]
+            if c in G_META or (in_alt and c == ","):
+                q = r.random()
+                out.append("\\" + c if q < 0.6 or c == "\\" and q < 0.8 else "[" + c + "]")
+            elif r.random() < 0.04:
+                out.append("\\" + c)                      # a backslash in front of an ordinary character is ignored
+            else:
+                out.append(c)
+        elif k == "any":
+            out.append("?")
+        elif k == "star":
+            out.append("*")
+        elif k == "class":
+            c = g_class_text(t[1], t[2], r)
+            if c is None:
+                return None
+            out.append(c)
+        elif k == "pre":
+            out.append("**/")
+        elif k == "suf":
+            out.append("/**")
+        elif k == "mid":
+            out.append("/**/")
+        elif k == "alt":
+            bs = [g_text(b, r, True) for b in t[1]]
+            if any(b is None for b in bs):
+                return None
+            out.append("{" + ",".join(bs) + "}")
+    text = "".join(out)
+    # two stars that the structure did not mean as `**` must not touch
+    return text
+
+
+def g_well_formed(its):
+    """the structure spells what it means: no two `*` adjacent unless they are one of the three recursive forms, and the
+    recursive forms stand where the documentation allows them (after nothing or a `/`, before nothing or a `/`)"""
+    flat = []
+    for t in its:
+        flat.append(t)
+    for a, b in zip(flat, flat[1:]):
+        if a[0] == "star" and b[0] in ("star", "pre", "suf", "mid"):
+            return False
+        if a[0] in ("pre", "mid") and b[0] in ("pre", "suf", "mid"):
+            return False
+        if a[0] in ("suf",):
+            return False
+        if b[0] == "mid" and a[0] in ("pre", "mid"):
+            return False
+        if a[0] == "lit" and a[1] == "/" and b[0] in ("pre", "suf", "mid"):
+            return False
+        if a[0] in ("pre", "mid") and b[0] == "lit" and b[1] == "/":
+            return False
+    for t in its:
+        if t[0] == "alt":
+            for b in t[1]:
+                if not b or not g_well_formed(b) or any(x[0] == "alt" for x in b):
+                    return False
+                if b[0][0] in ("suf", "mid") or b[-1][0] in ("pre", "mid"):
+                    return False
+    if any(t[0] == "pre" for t in its[1:]) or any(t[0] == "suf" for t in its[:-1]):
+        return False
+    if its and (its[0][0] == "mid" or its[-1][0] == "mid"):
+        return False
+    # a group next to a star or a recursive form: the documentation does not say how `**` inside a branch sees its neighbours
+    for a, b in zip(its, its[1:]):
+        if a[0] == "alt" and (b[0] in ("pre", "suf", "mid") or any(x[-1][0] == "star" for x in a[1]) and b[0] == "star"):
+            return False
+        if b[0] == "alt" and a[0] in ("pre", "mid", "suf"):
+            return False
+        if b[0] == "alt" and a[0] == "star" and any(x[0][0] in ("star", "pre") for x in b[1]):
+            return False
+        if b[0] == "alt" and a[0] == "lit" and a[1] == "/" and any(x[0][0] == "pre" for x in b[1]):
+            return False
+        if a[0] == "alt" and b[0] == "lit" and b[1] == "/" and any(x[-1][0] == "suf" for x in a[1]):
+            return False
+        if b[0] == "alt" and any(x[0][0] == "pre" for x in b[1]):
+            return False                                   # `x{**/s}`: "starts with **/" is about the glob, not about a branch
+        if a[0] == "alt" and any(x[-1][0] == "suf" for x in a[1]):
+            return False
+    return True
+
+
+def doc_regex(its):
+    """The documented meaning as a Python regular expression over CHARACTERS (written from the `# Syntax` section of the
+    globset documentation): `?` any single character, `*` zero or more characters (both cross `/`: literal_separator is off),
+    a leading `**/` all directories, a trailing `/**` all sub-entries, an inner `/**/` zero or more directories, `{a,b}`
+    either, `[ab]`/`[a-c]`/`[!ab]` a character (not) in the set, `\c` and `[c]` the character itself; the whole path."""
+    def rx(items):
+        o = []
+        for t in items:
+            k = t[0]
+            if k == "lit":
+                o.append(re.escape(t[1]))
+            elif k == "any":
+                o.append(".")
+            elif k == "star":
+                o.append(".*")
+            elif k == "class":
+                o.append("[" + ("^" if t[1] else "") + "".join(re.escape(lo) if lo == hi else re.escape(lo) + "-" + re.escape(hi)
+                                                                for lo, hi in t[2]) + "]")
+            elif k == "pre":
+                o.append("(?:.*/)?")
+            elif k == "suf":
+                o.append("/.*")
+            elif k == "mid":
+                o.append("/(?:.*/)?")
+            elif k == "alt":
+                o.append("(?:" + "|".join(rx(b) for b in t[1]) + ")")
+        return "".join(o)
+    if its == [("pre",)]:
+        return re.compile(".*", re.S)                      # "the glob `**` is allowed and means match everything"
+    return re.compile(rx(its), re.S)
+
+
+def g_has(its, kinds):
+    return any(t[0] in kinds or (t[0] == "alt" and any(g_has(b, kinds) for b in t[1])) for t in its)
+
+
+def doc_judges(its, text, path):
+    """is this (pattern, path) pair one the documentation decides? Not when the pattern begins with `!` (imdl reads that as the
+    polarity mark) and not when `?` or a class meets a non-ASCII path or a non-ASCII class member: the documentation says
+    "character", the library matches BYTES (counted separately, see doc_char_vs_library_byte)"""
+    if text.startswith("!"):
+        return False
+    if g_has(its, ("any", "class")):
+        if not path.isascii():
+            return False
+        def cls_ascii(items):
+            for t in items:
+                if t[0] == "class" and not all(lo.isascii() and hi.isascii() for lo, hi in t[2]):
+                    return False
+                if t[0] == "alt" and not all(cls_ascii(b) for b in t[1]):
+                    return False
+            return True
+        if not cls_ascii(its):
+            return False
+    return True
+
+
+def g_instance(its, r):
+    """a text the pattern is meant to match: every item instantiated"""
+    out = []
+    for t in its:
+        k = t[0]
+        if k == "lit":
+            out.append(t[1])
+        elif k == "any":
+            out.append(r.choice(["a", "x", ".", "/", "0", "é"] if r.random() < 0.15 else ["a", "x", ".", "q"]))
+        elif k == "star":
+            out.append(r.choice(["", "", "x", "ab", "a/b", "/", ".txt", "é", "d/e/f"]))
+        elif k == "class":
+            neg, rs = t[1], t[2]
+            if not neg:
+                lo, hi = r.choice(rs)
+                out.append(lo if r.random() < 0.6 or not (lo.isascii() and hi.isascii()) else chr(r.randint(ord(lo), ord(hi))))
+            else:
+                cands = [c for c in "aqx0.-/Z]" if not any(lo <= c <= hi for lo, hi in rs)]
+                out.append(r.choice(cands) if cands else "q")
+        elif k == "pre":
+            out.append(r.choice(["", "", "d/", "d/e/", "/"]))
+        elif k == "suf":
+            out.append("/" + r.choice(["", "x", "x/y", "é"]))
+        elif k == "mid":
+            out.append(r.choice(["/", "/", "/m/", "/m/n/"]))
+        elif k == "alt":
+            out.append(g_instance(r.choice(t[1]), r))
+    return "".join(out)
+
+
+def g_mutate(p, r):
+    k = r.random()
+    if k < 0.28 and p:
+        i = r.randrange(len(p))
+        return p[:i] + r.choice(G_PATH_ALPHA) + p[i + 1:]
+    if k < 0.48 and p:
+        i = r.randrange(len(p))
+        return p[:i] + p[i + 1:]
+    if k < 0.62:
+        return r.choice(["q/", "d/", "/", "x"]) + p
+    if k < 0.76:
+        return p + r.choice(["/q", "x", "/", ".bak"])
+    if k < 0.88 and p:
+        i = r.randrange(len(p) + 1)
+        return p[:i] + r.choice(G_PATH_ALPHA) + p[i:]
+    return "".join(r.choice(G_PATH_ALPHA) for _ in range(r.randint(0, 6)))
+
+
+G_RAW = ["a", "b", "/", "*", "*", "?", "[", "]", "!", "^", "-", "{", "}", ",", "\\", ".", "é", "z", "**", "/**", "**/", "/**/", "[a-b]", "{a,b}",
+         "ÿ", "☃", "x"]
+# malformed patterns by construction, with the error the documentation names ("}" without "{" is documented as an error,
+# `ErrorKind::UnopenedAlternates`, but globset 0.4.14 accepts it: counted, see glob_library)
+G_BAD_TAILS = [("[", "unclosed-class"), ("[!", "unclosed-class"), ("[]", "unclosed-class"), ("[!]", "unclosed-class"), ("[a-", "unclosed-class"),
+               ("[ab", "unclosed-class"), ("[^]a", "unclosed-class"), ("[z-a]", "invalid-range"), ("[b-a]x", "invalid-range"),
+               ("[c-d-a]", "invalid-range"), ("[9-0]", "invalid-range"), ("[z--]", "invalid-range"), ("[é-a]", "invalid-range"),
+               ("[ÿ-é]", "invalid-range"), ("{a", "unclosed-alternates"), ("{a,b", "unclosed-alternates"), ("{", "unclosed-alternates"),
+               ("{a,", "unclosed-alternates"), ("{a{b}}", "nested-alternates"), ("{{a}", "nested-alternates"), ("{a,{b,c}}", "nested-alternates"),
+               ("\\", "dangling-escape"), ("a\\", "dangling-escape"), ("{a\\", "dangling-escape"), ("}", "unopened-brace"),
+               ("a}b", "unopened-brace"), ("{a}}", "unopened-brace")]
+
+# hand-written patterns: every construct, every position of `**` (legal and not), every error kind, the spellings of `]` `-`
+# `!` `^` in classes, escapes, groups with empty / single / recursive branches, non-ASCII. Each also runs end to end.
+G_CORPUS = ["a", "a/b", "*.txt", "*", "**", "**/", "/**", "**/*", "**/**", "**/**/*", "a/**", "a/**/**", "a/**/b", "a/**/**/b", "**/b",
+            "**/b/c", "/**/b", "a**", "**a", "a**b", "***", "a/**b", "a**/b", "/a**", "**/a/**", "*/*", "*/*/*", "?", "??", "a?b", "?.txt",
+            "*.t?t", "[ab]", "[a-c]", "[!a-c]", "[^a-c]", "[]]", "[]a]", "[!]]", "[-]", "[a-]", "[-a]", "[--z]", "[ --]", "[a-b-c]", "[!!]", "[!^]",
+            "[a^]", "[*]", "[?]", "[[]", "[\\]", "[\\]]", "[/]", "a[/]b", "[é]", "[é]?", "[a-é]", "[é-ÿ]", "é", "☃", "*é", "?é", "\\*", "\\?", "\\[",
+            "\\\\", "\\a", "\\é", "a\\/b", "\\{a\\}", "{a,b}", "{a}", "{}", "{,}", "{,a}", "a{}b", "{a,b}c", "x{a,b}y", "{a,b}{c,d}", "{*.txt,*.rs}",
+            "{**/src/**,b}", "{a/**,b}", "{**/a,b}", "x{**/a}", "{a,b/**/c}", "{a\\,b}", "{a\\,**}", "{[}],b}", "{a,b},c", "a,b", ",", "}", "a}",
+            "}a", "{a}}", "!a", "!*", "!", "!!a", "a!b", "-a", "--", " ", "a b", ".*", ".*/**", "**/.*", "*.tar.gz", "src/**/*.rs", "**/test_*",
+            "[0-9][0-9]", "[a-z]*", "*[0-9]", "Thumbs.db", "**/Thumbs.db", "[", "[a", "[!", "[]", "[z-a]", "{a", "{a,b", "{a{b}}", "\\", "a\\",
+            "a/", "/a", "//", "a//b", "./a", "../a", "a/./b", "*/", "/*", "?/?", "*?*", "?*?", "**?", "?**", "[a-c]**", "**[a-c]", "**{a,b}",
+            "{a,b}**", "{a,b}/**", "**/{a,b}", "a/**/{b,c}", "{a/**/b}", "{**}", "{**,a}", "{a,**}", "{/**}", "{**/}", "a{/**}", "{**/}a"]
+
+
+def gen_glob_pairs(ctx):
+    """-> list of dict(text, its or None, paths: [(path, kind)], stream)"""
+    r = ctx.rng
+    out = []
+    # --- structured patterns (the documented language), paths derived from the pattern
+    n_struct = ctx.n(2600, 40000)
+    tries = 0
+    while len(out) < n_struct and tries < n_struct * 20:
+        tries += 1
+        its = g_pattern(r)
+        if not g_well_formed(its):
+            continue
+        text = g_text(its, r)
+        if text is None:
+            continue
+        paths = []
+        for _ in range(3):
+            paths.append((g_instance(its, r), "instance"))
+        inst = g_instance(its, r)
+        for _ in range(3):
+            paths.append((g_mutate(inst, r), "mutant"))
+        paths.append(("".join(r.choice(G_PATH_ALPHA) for _ in range(r.randint(0, 6))), "random"))
+        out.append({"text": text, "its": its, "paths": paths, "stream": "structured"})
+    # --- raw text over a metacharacter-heavy alphabet: `**` everywhere, stray brackets and braces, escapes
+    for _ in range(ctx.n(900, 15000)):
+        text = "".join(r.choice(G_RAW) for _ in range(r.randint(0, 7)))
+        paths = []
+        for _ in range(3):
+            paths.append(("".join(c if c not in "*?[]{}\\!^" else r.choice(["", "a", "/", "a/b", c]) for c in text), "derived"))
+        for _ in range(2):
+            paths.append(("".join(r.choice(G_PATH_ALPHA) for _ in range(r.randint(0, 6))), "random"))
+        out.append({"text": text, "its": None, "paths": paths, "stream": "raw"})
+    # --- malformed by construction
+    for _ in range(ctx.n(300, 5000)):
+        its = g_pattern(r)
+        head = (g_text(its, r) or "a") if g_well_formed(its) and not g_has(its, ("alt",)) else r.choice(["", "a", "a/", "*.", "x?"])
+        tail, kind = r.choice(G_BAD_TAILS)
+        # an unclosed class or a dangling backslash is only certain at the very end of the text
+        text = head + tail if r.random() < 0.7 or kind in ("unclosed-class", "dangling-escape") else tail + head
+        out.append({"text": text, "its": None, "paths": [("a", "random"), (head, "derived")], "stream": "malformed", "doc_error": kind})
+    # --- the corpus
+    for text in G_CORPUS:
+        plain = "".join(c for c in text if c not in "*?[]{}\\")
+        paths = [(plain, "derived"), ("a", "random"), ("a/b", "random"), ("a/x/b", "random"), ("b", "random"), ("", "random"), ("é", "random"),
+                 ("x.txt", "random"), ("d/x.txt", "random"), ("src/a/b.rs", "random"), ("/", "random"), ("a/", "random"), ("]", "random"),
+                 ("*", "random"), ("\\", "random"), ("a,b", "random"), ("-", "random"), ("^", "random"), ("!", "random"), ("c", "random")]
+        out.append({"text": text, "its": None, "paths": paths, "stream": "corpus"})
+    return out
+
+
+def glob_library(ctx):
+    """the tie between Model/Glob.v and globset as imdl calls it; returns True when they agreed everywhere"""
+    r = ctx.rng
+    cases = gen_glob_pairs(ctx)
+    # token kinds / error kinds as the model parses them (distribution only)
+    for c, rep in zip(cases, ctx.model(["gparse %s" % lib.hexs(c["text"]) for c in cases])):
+        c["parse"] = rep
+        if rep.startswith("ERR "):
+            ctx.count("glob_model_error_" + rep[4:])
+        elif rep.startswith("OK "):
+            ctx.count("glob_patterns_parsed")
+            for tok in re.findall(r"[LQSPXMCA]", re.sub(r"[0-9a-f]+", "", rep[3:])):
+                ctx.count("glob_token_" + {"L": "literal", "Q": "any", "S": "zero_or_more", "P": "recursive_prefix", "X": "recursive_suffix",
+                                           "M": "recursive_zero_or_more", "C": "class", "A": "alternates"}[tok])
+        else:
+            ctx.violation("model-impl-disagreement", "the glob model did not answer on %r: %s" % (c["text"], rep), {"pattern": c["text"], "model": rep})
+    items = []            # (case, path, kind, negated?)
+    for c in cases:
+        for path, kind in c["paths"]:
+            items.append((c, path, kind, False))
+            if r.random() < 0.3:
+                items.append((c, path, kind, True))
+    hl = ["globf %s %s" % (lib.hexlist([("!" if neg else "") + c["text"]]), lib.hexs(p)) for c, p, _, neg in items]
+    ml = ["gfilter %s %s" % (lib.hexlist([("!" if neg else "") + c["text"]]), lib.hexs(p)) for c, p, _, neg in items]
+    ok = True
+    nshown = ndoc = 0
+    pairs_seen = set()
+    for (c, path, kind, neg), hr, mr, hline in zip(items, ctx.harness(hl), ctx.model(ml), hl):
+        ctx.cov["evaluations"] += 1
+        ctx.cov["traces_validated_against_impl"] += 1
+        h = "ERR" if hr.startswith("ERR ") else hr
+        first = (c["text"], path) not in pairs_seen
+        pairs_seen.add((c["text"], path))
+        if first:
+            ctx.count("glob_pairs")
+            ctx.count("glob_pairs_" + c["stream"])
+            ctx.count("glob_path_" + kind)
+        banged = c["text"].startswith("!")            # the argument's own first `!` is the polarity mark
+        excluding = neg or banged
+        if h in ("OK 0", "OK 1"):
+            matched = (h == "OK 1") != excluding if not (neg and banged) else None
+            if first and matched is not None:
+                ctx.count("glob_pair_match" if matched else "glob_pair_no_match")
+        elif first and h == "ERR":
+            ctx.count("glob_pair_error")
+        ctx.distinct(("globlib", c["stream"], h, kind, neg, (c["parse"] or "")[:3], len(c["text"]) // 3))
+        rec = {"glob_argument": ("!" if neg else "") + c["text"], "path": path, "hook": hr if not hr.startswith("ERR ") else "ERR " + lib.unhex(hr[4:]).decode("utf-8", "replace"),
+               "model": mr, "model_tokens": c["parse"], "stream": c["stream"], "reproduce": "printf '%s\\n' | imdl-verif-harness" % hline}
+        if h != mr:
+            ok = False
+            ctx.cov["disagreements_checked"] += 1
+            if nshown < 5:
+                nshown += 1
+                ctx.violation("model-impl-disagreement",
+                              "Glob.glob_filter and globset (through Walker::pattern_filter) differ on --glob %r, path %r: hook %s, model %s"
+                              % (rec["glob_argument"], path, rec["hook"], mr), rec)
+            continue
+        # --- the documented error kinds (malformed stream)
+        if c["stream"] == "malformed" and not neg and first and path == "a":
+            if c["doc_error"] == "unopened-brace":
+                ctx.count("doc_says_error_library_accepts_unopened_brace" if h != "ERR" else "unopened_brace_refused")
+            elif h != "ERR":
+                ok = False
+                ctx.violation("assumption-broken", "globset accepts %r, which its documentation calls an error (%s)" % (c["text"], c["doc_error"]),
+                              dict(rec, documented_error=c["doc_error"]))
+            else:
+                ctx.count("doc_error_" + c["doc_error"])
+        # --- the documentation as third judge
+        if c["its"] is not None and h != "ERR":
+            want_match = bool(doc_regex(c["its"]).fullmatch(path))
+            if doc_judges(c["its"], c["text"], path):
+                ctx.count("glob_doc_oracle_judged")
+                want = "OK %d" % (1 if want_match != neg else 0)
+                if h != want:
+                    ok = False
+                    ndoc += 1
+                    ctx.count("glob_doc_oracle_disagreements")
+                    if ndoc <= 5:
+                        ctx.violation("assumption-broken",
+                                      "globset disagrees with its documented meaning on --glob %r, path %r: hook %s, documentation %s"
+                                      % (rec["glob_argument"], path, h, want), dict(rec, documentation=want, regex=doc_regex(c["its"]).pattern))
+            elif not c["text"].startswith("!"):
+                got_match = (h == "OK 1") != neg
+                ctx.count("doc_char_vs_library_byte_same" if got_match == want_match else "doc_char_vs_library_byte_differs")
+        elif c["its"] is not None and h == "ERR":
+            ok = False
+            ctx.violation("assumption-broken", "globset refuses %r, a pattern of the documented language" % c["text"], rec)
+    for c in cases[:3] + [x for x in cases if x["stream"] == "raw"][:2]:
+        ctx.sample({"glob": c["text"], "tokens_as_parsed_by_the_model": c["parse"], "paths": [p for p, _ in c["paths"]][:4]})
+    return ok
+
+
+def glob_e2e(ctx):
+    """every corpus pattern (and a sample of generated ones) end to end: `imdl torrent create --glob=G` on a tiny tree whose
+    paths are derived from the pattern, against the extracted Walk.walk with the concrete matcher (`walkg`), and against the
+    documented meaning where it decides"""
+    r = ctx.rng
+    pats = [(t, None) for t in G_CORPUS]
+    want = ctx.n(320, 3000)
+    tries = 0
+    while len(pats) < want and tries < want * 30:
+        tries += 1
+        its = g_pattern(r)
+        if g_well_formed(its):
+            t = g_text(its, r)
+            if t is not None:
+                pats.append((t, its))
+        if r.random() < 0.25:
+            pats.append(("".join(r.choice(G_RAW) for _ in range(r.randint(1, 6))), None))
+    fixed = ["a", "b", "a/b", "a/x/b", "x.txt", "d/x.txt", "src/a/b.rs", "src/lib.rs", "é", "d/é", "a,b", "]", "-", "c/Thumbs.db", ".h/x"]
+
+    def usable(p, have):
+        comps = p.split("/")
+        if not p or len(p.encode()) > 120 or "\x00" in p or any(c in ("", ".", "..") for c in comps):
+            return False
+        for q in have:                                         # no path may be a directory of another
+            qc = q.split("/")
+            if qc[:len(comps)] == comps or comps[:len(qc)] == qc:
+                return False
+        return True
+
+    cases = []
+    for text, its in pats:
+        cand = []
+        plain = "".join(c for c in text if c not in "*?[]{}\\")
+        if its is not None:
+            inst = [g_instance(its, r) for _ in range(4)]
+            cand += inst + [g_mutate(inst[0], r) for _ in range(3)]
+        else:
+            cand += [plain, plain + "/q", "q/" + plain, plain.replace("/", "")]
+        files = []
+        for p in cand + r.sample(fixed, 6):
+            if usable(p, files):
+                files.append(p)
+        if not files:
+            files = ["a"]
+        neg = r.random() < 0.35
+        cases.append({"glob": ("!" if neg else "") + text, "its": its, "neg": neg, "files": sorted(files)})
+    tmp = tempfile.mkdtemp(prefix="c06g-")
+
+    def one(c):
+        top = tempfile.mkdtemp(prefix="g-", dir=tmp)
+        try:
+            for i, p in enumerate(c["files"]):
+                full = os.path.join(os.fsencode(top), b"root", p.encode())
+                os.makedirs(os.path.dirname(full), exist_ok=True)
+                with open(full, "wb") as f:
+                    f.write(b"x" * (1 + i % 3))
+            argv = ["torrent", "create", "--input", "root", "--output", "-", "--include-hidden", "--include-junk", "--glob=" + c["glob"]]
+            rc, out, err = ctx.imdl(argv, cwd=top, timeout=60)
+            return impl_canon(rc, out), argv
+        finally:
+            shutil.rmtree(top, ignore_errors=True)
+
+    def tree_of(files):
+        root = {}
+        for i, p in enumerate(files):
+            d = root
+            comps = p.split("/")
+            for cpt in comps[:-1]:
+                d = d.setdefault(cpt, {})
+            d[comps[-1]] = 1 + i % 3
+        def enc(d):
+            return "D(" + ";".join("%s:%s" % (k.encode().hex(), ("F%d" % v) if isinstance(v, int) else enc(v)) for k, v in d.items()) + ")"
+        return enc(root)
+
+    try:
+        impl = lib.pmap(one, cases)
+        model = [model_canon(x.replace("OK GLOBERR", "OK FAILED")) for x in
+                 ctx.model(["walkg 110 %s ~ %s" % (lib.hexlist([c["glob"]]), tree_of(c["files"])) for c in cases])]
+        for c, (a, argv), m in zip(cases, impl, model):
+            ctx.cov["evaluations"] += 1
+            ctx.cov["traces_validated_against_impl"] += 1
+            ctx.count("glob_e2e")
+            ctx.count("glob_e2e_" + ("error" if a == "ERR" else "empty" if a == "LIST ~" else "all" if a.count(",") + 1 == len(c["files"]) else "some"))
+            ctx.distinct(("globe2e", c["glob"][:2], a.split(" ")[0], len(c["files"])))
+            rec = {"glob": c["glob"], "files": c["files"], "impl": a, "model": m,
+                   "reproduce": "create the files under ./root (any content), then: imdl " + " ".join(shlex.quote(x) for x in argv)}
+            if c["its"] is not None and a != "ERR":
+                rx = doc_regex(c["its"])
+                judged = [p for p in c["files"] if doc_judges(c["its"], c["glob"][1:] if c["neg"] else c["glob"], p)]
+                if len(judged) == len(c["files"]):
+                    keep = [(tuple(x.encode() for x in p.split("/")), 1 + c["files"].index(p) % 3) for p in c["files"]
+                            if bool(rx.fullmatch(p)) != c["neg"]]
+                    keep.sort()
+                    wantl = canon_list(keep)
+                    ctx.count("glob_e2e_doc_oracle_judged")
+                    if a != wantl:
+                        ctx.violation("oracle-failure", "`imdl torrent create --glob=%s` on files %r lists %s; by the documented meaning of the glob it is %s"
+                                      % (c["glob"], c["files"], a, wantl), dict(rec, documentation=wantl))
+                        continue
+            if a != m:
+                ctx.cov["disagreements_checked"] += 1
+                ctx.violation("model-impl-disagreement", "Walk.walk over Glob.glob_match and `imdl torrent create --glob=%s` differ on files %r: impl %s, model %s"
+                              % (c["glob"], c["files"], a, m), rec)
+    finally:
+        shutil.rmtree(tmp, ignore_errors=True)
+
+
 # ------------------------------------------------------------------ the run
 
 def run(ctx):
@@ -562,7 +1127,9 @@ def run(ctx):
         return finish(ctx)
     r = ctx.rng
     glob_assumption_ok = validate_globs(ctx)
+    glob_assumption_ok = glob_library(ctx) and glob_assumption_ok
     e2e(ctx, glob_assumption_ok)      # first: its failures replay on the real binary
+    glob_e2e(ctx)
     undecodable_names(ctx)
     hooks_at_volume(ctx)
     malformed(ctx)
@@ -665,13 +1232,16 @@ def e2e(ctx, glob_ok):
             c["tmp"] = tmp
         impl = lib.pmap(lambda c: run_impl(ctx, c), cases)
         model = [model_canon(x) for x in ctx.model([model_line(c) for c in cases])]
+        # the same walk with the concrete glob matcher of Model/Glob.v: the model reads the --glob texts itself
+        model_g = [model_canon(x.replace("OK GLOBERR", "OK FAILED")) for x in ctx.model([model_line_globs(c) for c in cases])]
         nshrunk = 0
-        for i, (c, (outs, script), m) in enumerate(zip(cases, impl, model)):
+        for i, (c, (outs, script), m, mg) in enumerate(zip(cases, impl, model, model_g)):
             ctx.cov["evaluations"] += 1
             ctx.cov["traces_validated_against_impl"] += 1
             want = oracle(c)
             a, b = outs[0], outs[1]
-            rec = dict(describe(c), impl=a, impl_other_creation_order=b, model=m, oracle=sorted(want), reproduce=script)
+            rec = dict(describe(c), impl=a, impl_other_creation_order=b, model=m, model_with_concrete_globs=mg, oracle=sorted(want),
+                       reproduce=script)
             kind = ("corpus" if i < ncorpus else "generated")
             ctx.count("e2e_" + kind)
             ctx.count("flags_h%dj%df%d" % c["flags"])
@@ -715,6 +1285,11 @@ def e2e(ctx, glob_ok):
                 ctx.cov["disagreements_checked"] += 1
                 ctx.violation("model-impl-disagreement",
                               "Walk.walk and Walker::files differ (impl %s, model %s); the documented rules are satisfied" % (a, m), rec)
+            elif a != mg:
+                ctx.cov["disagreements_checked"] += 1
+                ctx.violation("model-impl-disagreement",
+                              "Walk.walk over the concrete matcher Glob.glob_match and Walker::files differ (impl %s, model %s); the "
+                              "documented rules are satisfied" % (a, mg), rec)
     finally:
         shutil.rmtree(tmp, ignore_errors=True)
 
@@ -810,7 +1385,8 @@ def hooks_at_volume(ctx):
     hl = ["globf %s %s" % (lib.hexlist([glob_arg(g) for g in globs]), lib.hexs(p)) for globs, p in items]
     ml = ["wpfilter %s" % (",".join(("+" if inc else "-") + ("1" if glob_regex(tk).fullmatch(p.encode()) else "0")
                                     for inc, tk in globs) or "~") for globs, p in items]
-    for (globs, p), hr, mr, hline in zip(items, ctx.harness(hl), ctx.model(ml), hl):
+    mg = ctx.model(["gfilter %s %s" % (lib.hexlist([glob_arg(g) for g in globs]), lib.hexs(p)) for globs, p in items])
+    for (globs, p), hr, mr, mgr, hline in zip(items, ctx.harness(hl), ctx.model(ml), mg, hl):
         ctx.cov["evaluations"] += 1
         ctx.cov["traces_validated_against_impl"] += 1
         want = "OK %d" % (1 if glob_decides(globs, p.encode()) else 0)
@@ -823,6 +1399,10 @@ def hooks_at_volume(ctx):
         elif hr != mr:
             ctx.cov["disagreements_checked"] += 1
             ctx.violation("model-impl-disagreement", "Walk.pattern_filter differs from Walker::pattern_filter (%s vs %s)" % (mr, hr), case)
+        elif hr != mgr:
+            ctx.cov["disagreements_checked"] += 1
+            ctx.violation("model-impl-disagreement", "Glob.glob_filter (Walker::globs + pattern_filter over the concrete matcher) differs from "
+                          "the glob_filter hook (%s vs %s)" % (mgr, hr), dict(case, model_with_concrete_globs=mgr))
     ctx.count("globf_cases", len(items))
 
 
@@ -862,9 +1442,12 @@ def malformed(ctx):
 
 def finish(ctx):
     ctx.assumptions += [
-        "globset: GlobMatcher::is_match is a function of (glob, root-relative path) - the Section variable gmatch; on the "
-        "generated sub-language (literals, *, ?, [..], [!..], leading **/, trailing /**, inner /**/; * and ? cross '/'; bytes) it "
-        "agrees with the documented meaning, validated through the glob_filter hook before any other case",
+        "globset 0.4.14 is modelled, not assumed (Model/Glob.v): Glob::new is glob_parse, compile_matcher().is_match is "
+        "glob_match, for every pattern that is valid UTF-8 (a Rust &str) and every path (bytes). What stays assumed about it: the "
+        "regex crate matches the regex text globset writes according to the usual meaning of its fragments (literal bytes, `.`, "
+        "`.*`, byte classes, `(?:a|b)`, `^..$` with (?-u) and dot-matches-newline) - the model has one matcher arm per fragment; "
+        "validated by the glob_filter hook on every generated (pattern, path) pair of this run",
+        "the precedence theorems over an arbitrary matcher (Section variable gmatch) remain; the instance is glob_path_match",
         "the `ignore` crate's walker (hidden(!include_hidden), follow_links(follow_symlinks), standard_filters(false)) yields "
         "every entry whose path has no hidden component below the root exactly once, descends through links only when "
         "following, and reports a dangling link as an error when following: Walk.yield / Walk.walk_error",
@@ -876,12 +1459,16 @@ def finish(ctx):
              "component-wise and as strings, equal sizes, file/dir/dangling/sibling symlinks, symlink/file/dangling roots, "
              "hidden/junk-named roots), each built twice in different creation orders, x 4 random configurations (3 flags, 0-3 "
              "globs, 0-3 sort keys) + a fixed corpus over all 8 flag combinations; hooks: sort comparisons on related path pairs "
-             "and glob lists on tree paths; a case is distinct by (flags, #globs, sort keys, outcome) resp. (keys, result, "
+             "and glob lists on tree paths; globset itself: patterns built from the grammar (documented language), raw "
+             "metacharacter text, malformed patterns, a fixed corpus, each with paths instantiated from the pattern, mutated, and "
+             "random, through the hook with the single glob g and !g, and end to end on tiny trees; a case is distinct by (flags, #globs, sort keys, outcome) resp. (keys, result, "
              "same-path, same-size) resp. (glob polarities, result)",
         trusted_base=["Coq 8.16.1 kernel (coqc), vm_compute for closed instances", "tools/rs2v_walker.py (GenWalker)",
-                      "extraction with ExtrOcamlBasic + runner/driver.d/walk.ml",
+                      "extraction with ExtrOcamlBasic + runner/driver.d/walk.ml, runner/driver.d/glob.ml",
                       "Rust hooks sort_compare / glob_filter + harness line protocol; the real imdl binary",
-                      "Python oracle, glob sub-language and tree builder in tools/props/c06.py; lib.bdecode_strict"],
+                      "Python oracle, glob generators, doc_regex (the documented meaning of a glob) and tree builder in tools/props/c06.py; "
+                      "lib.bdecode_strict",
+                      "the regex crate behind globset implements the meaning of the regex fragments (see assumptions)"],
     )
 
 
